@@ -61,6 +61,12 @@ def handle (line : String) : String :=
           let es := (List.range n).map (fun t => fun x => sigma w x t)
           showRes (runOnline Generated.onlineDiscrete.handles Generated.onlineDiscrete.raises φ es)
       | _, _, _ => "bad-input"
+  | "sat" :: f :: n :: sigs =>
+      match parseFormula f, n.toNat?, parseEnv sigs with
+      | some φ, some n, some w =>
+          if !(φ.isFormula && φ.noIffXor) then "err notformula"
+          else "ok " ++ " ".intercalate ((List.range n).map (fun t => if sat (sigma w) n φ t then "1" else "0"))
+      | _, _, _ => "bad-input"
   | "past" :: f :: _ =>
       match parseFormula f with
       | some φ =>
@@ -77,6 +83,10 @@ def handle (line : String) : String :=
             | "bounded" => some φ.bounded
             | "online" => some φ.online
             | "wf" => some φ.wf
+            | "isFormula" => some φ.isFormula
+            | "noIffXor" => some φ.noIffXor
+            | "simplePreds" => some φ.simplePreds
+            | "simpleArith" => some φ.simpleArith
             | _ => none
           match b with
           | some true => "1"
